@@ -222,6 +222,20 @@ impl World {
 
     /// Returns (res, got, sid)
     fn bind(&mut self, h: usize, proto: &str, fam: u8, addr: &str, port: u16) -> (String, u16, usize) {
+        self.bind_marked(h, proto, fam, addr, port, false)
+    }
+
+    /// `after_listener_close`: statistics marker only (the random driver re-binds the port of a
+    /// listener it has just closed while an accepted connection is still open)
+    fn bind_marked(
+        &mut self,
+        h: usize,
+        proto: &str,
+        fam: u8,
+        addr: &str,
+        port: u16,
+        after_listener_close: bool,
+    ) -> (String, u16, usize) {
         self.cur(h);
         let sa = SocketAddr::new(ip_of(addr, fam), port);
         let (res, got, real) = if proto == "udp" {
@@ -241,7 +255,7 @@ impl World {
             sid = self.socks.len();
         }
         self.emit(json!({"ev":"bind","h":h,"proto":proto,"fam":fam,"addr":addr,"port":port,
-                         "res":res,"got":got,"sid":sid}));
+                         "res":res,"got":got,"sid":sid,"after_listener_close":after_listener_close}));
         (res, got, sid)
     }
 
@@ -834,6 +848,9 @@ fn main_replay(args: &[String]) {
             continue;
         }
         let beh: Vec<Value> = serde_json::from_str(line).expect("behaviour json");
+        // a panic of the code under test is caught below, but a panic while unwinding (sockets closing
+        // against a poisoned Net) aborts the process: leave a note saying which behaviour was running
+        let _ = std::fs::write(format!("{out}.progress"), k.to_string());
         let (d, _, nt) = match util::catch(|| replay_one(&beh, &cfg, false)) {
             Ok(r) => r,
             Err(p) => (Some(json!({"what":"panic","msg":p})), vec![], false),
@@ -878,6 +895,7 @@ fn main_replay(args: &[String]) {
     let summary = json!({"behaviours": total, "nontrivial": nontrivial, "divergent": ndiv,
         "divergences": divs, "samples": samples});
     std::fs::write(&out, serde_json::to_string(&summary).unwrap()).unwrap();
+    let _ = std::fs::remove_file(format!("{out}.progress"));
     println!("replayed={total} nontrivial={nontrivial} divergent={ndiv}");
 }
 
@@ -891,6 +909,9 @@ struct Model {
     pairs: Vec<(usize, usize)>,                       // live (client, child)
     bound: Vec<(usize, usize, u8, String, u16)>,      // live (sid, host, fam, addr, port)
     ports_seen: Vec<u16>,
+    // (host, fam, port) of a listener that was closed while a connection it accepted is still open
+    orphaned: Option<(usize, u8, u16)>,
+    accepted_by: BTreeMap<usize, usize>,              // child sid -> listener sid
 }
 
 fn host_addr_names(h: usize) -> [&'static str; 2] {
@@ -910,9 +931,12 @@ fn random_run(rng: &mut StdRng, n: usize, ops: usize, probes: usize, all: &mut V
         pairs: vec![],
         bound: vec![],
         ports_seen: vec![5000, 5001, EPH_LO, EPH_LO + 1],
+        orphaned: None,
+        accepted_by: BTreeMap::new(),
     };
     let all_addrs: Vec<&str> = {
-        let mut v = vec!["lo", "a1", "a2", "b1", "b2", "x"];
+        // "wild": the unspecified address as a *destination* (owned by nobody, like "x")
+        let mut v = vec!["lo", "a1", "a2", "b1", "b2", "x", "wild"];
         if n >= 3 {
             v.push("c1");
             v.push("c2");
@@ -921,7 +945,21 @@ fn random_run(rng: &mut StdRng, n: usize, ops: usize, probes: usize, all: &mut V
     };
     for _ in 0..ops {
         let r = rng.random_range(0..100);
-        if r < 45 {
+        if let Some((oh, ofam, oport)) = m.orphaned.take() {
+            // the listener is gone, its accepted child lives on: bind that port again (the address the
+            // child sits on, the wildcard, the host's other address) or ask for an ephemeral port
+            let own = host_addr_names(oh);
+            let addr = ["wild", own[0], own[1], "lo"][rng.random_range(0..4)];
+            let port = if rng.random_bool(0.75) { oport } else { 0 };
+            let (res, got, sid) = w.bind_marked(oh, "tcp", ofam, addr, port, true);
+            if res == "Ok" {
+                if !m.ports_seen.contains(&got) {
+                    m.ports_seen.push(got);
+                }
+                m.bound.push((sid, oh, ofam, addr.to_string(), got));
+                m.listeners.push((sid, oh, ofam, got));
+            }
+        } else if r < 45 {
             let h = rng.random_range(1..=n);
             let proto = if rng.random_bool(0.5) { "udp" } else { "tcp" };
             let fam = if rng.random_bool(0.7) { 4 } else { 6 };
@@ -961,7 +999,19 @@ fn random_run(rng: &mut StdRng, n: usize, ops: usize, probes: usize, all: &mut V
                 let s = m.udp.swap_remove(rng.random_range(0..m.udp.len()));
                 closed.push(s);
             } else if k == 1 && !m.listeners.is_empty() {
-                let s = m.listeners.swap_remove(rng.random_range(0..m.listeners.len()));
+                // prefer a listener that has accepted a connection which is still open
+                let with_child: Vec<usize> = (0..m.listeners.len())
+                    .filter(|&i| m.pairs.iter().any(|p| m.accepted_by.get(&p.1) == Some(&m.listeners[i].0)))
+                    .collect();
+                let i = if !with_child.is_empty() && rng.random_bool(0.8) {
+                    with_child[rng.random_range(0..with_child.len())]
+                } else {
+                    rng.random_range(0..m.listeners.len())
+                };
+                let s = m.listeners.swap_remove(i);
+                if m.pairs.iter().any(|p| m.accepted_by.get(&p.1) == Some(&s.0)) {
+                    m.orphaned = Some((s.1, s.2, s.3));
+                }
                 closed.push(s.0);
             } else if !m.pairs.is_empty() {
                 let p = m.pairs.swap_remove(rng.random_range(0..m.pairs.len()));
@@ -1011,7 +1061,12 @@ fn random_run(rng: &mut StdRng, n: usize, ops: usize, probes: usize, all: &mut V
             };
             let ev = w.connect(h, fam, &da, dp);
             if ev["res"] == "Ok" {
-                m.pairs.push((ev["csid"].as_u64().unwrap() as usize, ev["ksid"].as_u64().unwrap() as usize));
+                let (cs, ks) = (ev["csid"].as_u64().unwrap() as usize, ev["ksid"].as_u64().unwrap() as usize);
+                m.pairs.push((cs, ks));
+                m.accepted_by.insert(ks, ev["acc"].as_u64().unwrap() as usize);
+                // the server-side child is a live socket bound to the address it was accepted on
+                let th = w.socks[ks - 1].host;
+                m.bound.push((ks, th, fam, ev["cha"].as_str().unwrap().to_string(), ev["chp"].as_u64().unwrap() as u16));
             }
         }
         // probes in the post-state: mostly aimed at (an address leading to) a live socket's port
